@@ -23,6 +23,8 @@
 #include "types.h"
 #include "array.h"
 #include "meta.h"
+#include "core.h"
+#include "config.h"
 #include "vf.h"
 
 const char *vf_name = "c05_elems";
@@ -580,11 +582,210 @@ static void case_arrarr(vf_rng *r)
 	vf_sample("array of arrays with harness elements in the inner buffers: %d operations on 2 outer handles", nops);
 }
 
+
+/* ---- third leg: config items and identifiers (aggregate managed elements) -- */
+static uintptr_t hu_addref(MPT_INTERFACE(metatype) *m)
+{
+	(void) m;
+	vf_count("monitor:meta-addref-refused", 1);
+	return 0;   /* unique value: no further reference is handed out */
+}
+static const MPT_INTERFACE_VPTR(metatype) hu_vptr = { { hm_convert }, hm_unref, hu_addref, hm_clone };
+#define UNIQ0 6   /* metas[6], metas[7] refuse addref */
+
+typedef struct { char name[208]; int nlen; } bshadow;
+static int meta_id(const MPT_INTERFACE(metatype) *m)
+{
+	const hmeta *h = (const hmeta *) m;
+	if (h < metas || h >= metas + 8) vf_fail("builtin:foreign-value", "element holds a value pointer that is no harness metatype");
+	return (int) (h - metas);
+}
+static void walk_item(const MPT_STRUCT(config_item) *it, long *expect, int depth, const char *ctx)
+{
+	if (it->value) expect[meta_id(it->value)]++;
+	const MPT_STRUCT(buffer) *b = it->elements._buf;
+	if (!b) return;
+	VF_CHECK(depth < 3, "builtin:nesting", "%s: nested elements deeper than anything the harness built", ctx);
+	VF_CHECK(b->_content_traits == mpt_config_item_traits(), "builtin:nested-type", "%s: nested buffer lost its element type", ctx);
+	const MPT_STRUCT(config_item) *sub = (const void *) (b + 1);
+	for (size_t j = 0, n = b->_used / sizeof(*sub); j < n; j++) walk_item(sub + j, expect, depth + 1, ctx);
+}
+static int pick_name(vf_rng *r, char *dst)
+{
+	static const int lens[] = { 0, 1, 2, 3, 10, 11, 12, 13, 27, 28, 40, 200 };
+	int n = lens[vf_below(r, sizeof(lens) / sizeof(*lens))];
+	for (int i = 0; i < n; i++) dst[i] = (char) ('a' + vf_below(r, 26));
+	dst[n] = 0;
+	return n;
+}
+/* take a value for a harness-built item: shared values get a reference, unique ones are handed over */
+static MPT_INTERFACE(metatype) *take_value(vf_rng *r)
+{
+	int id = (int) vf_below(r, 10) - 2;
+	if (id < 0) return 0;
+	if (id >= UNIQ0) {
+		if (mt_refs[id]) return 0;
+		mt_refs[id] = 1;
+		vf_count("builtin:unique-value-handed-over", 1);
+		return &metas[id].mt;
+	}
+	hm_addref(&metas[id].mt);
+	return &metas[id].mt;
+}
+static void case_builtin(vf_rng *r, int kind)
+{
+	const MPT_STRUCT(type_traits) *tr = kind ? mpt_identifier_traits() : mpt_config_item_traits();
+	const size_t ES = tr->size;
+	const char *kn = kind ? "identifier" : "config_item";
+	MPT_STRUCT(array) a[2] = { MPT_ARRAY_INIT, MPT_ARRAY_INIT };
+	static bshadow shd[2][24];
+	size_t sn[2] = { 0, 0 };
+	char ctx[200];
+	int nops = vf_range(r, 6, 40), copies = 0;
+
+	for (int i = 0; i < 8; i++) { metas[i].mt._vptr = i >= UNIQ0 ? &hu_vptr : &hm_vptr; metas[i].id = i; mt_refs[i] = 0; }
+	vf_fp_u64(0xb111 + kind);
+	for (int i = 0; i < nops; i++) {
+		int h = (int) vf_below(r, 2), op = (int) vf_below(r, kind ? 7 : 10);
+		size_t n = sn[h], pos = vf_below(r, (uint32_t) n + 2), cnt = 1 + vf_below(r, 3);
+		int was_shared = a[h]._buf && a[h]._buf == a[!h]._buf;
+		const MPT_STRUCT(buffer) *before = a[h]._buf;
+		if (pos + cnt > 22) { pos = n < 19 ? n : 19; }
+		if (pos + cnt > 22) cnt = 1;
+		snprintf(ctx, sizeof(ctx), "%s op=%d h=%d pos=%zu cnt=%zu count=%zu%s", kn, op, h, pos, cnt, n, was_shared ? " shared" : "");
+		vf_log("%s", ctx);
+		vf_fp_u64(((uint64_t) op << 32) ^ (h << 24) ^ (pos << 8) ^ cnt);
+		switch (op) {
+		case 0: case 1: {   /* copy-construct from harness-built sources */
+			union { MPT_STRUCT(config_item) it[3]; MPT_STRUCT(identifier) id[3]; } src;
+			char nm[3][208]; int nl[3];
+			for (size_t j = 0; j < cnt; j++) {
+				void *e = kind ? (void *) &src.id[j] : (void *) &src.it[j];
+				if (tr->init(e, 0) < 0) vf_fail("builtin:default-init-failed", "%s", ctx);
+				nl[j] = pick_name(r, nm[j]);
+				MPT_STRUCT(identifier) *id = kind ? &src.id[j] : &src.it[j].identifier;
+				if (nl[j] && !mpt_identifier_set(id, nm[j], nl[j])) vf_fail("builtin:source-name-refused", "%s", ctx);
+				if (!kind) src.it[j].value = take_value(r);
+			}
+			vf_at("mpt_array_set"); vf_count(kind ? "identifier:array_set" : "config_item:array_set", 1);
+			void *p = mpt_array_set(&a[h], tr, cnt * ES, &src, (long) pos);
+			VF_CHECK(p != 0, "builtin:array_set:refused", "%s: NULL", ctx);
+			for (size_t j = n; j < pos; j++) { shd[h][j].nlen = 0; shd[h][j].name[0] = 0; }
+			for (size_t j = 0; j < cnt; j++) { memcpy(shd[h][pos + j].name, nm[j], nl[j] + 1); shd[h][pos + j].nlen = nl[j]; }
+			if (pos + cnt > sn[h]) sn[h] = pos + cnt;
+			/* sources stay the harness's: finalise them */
+			for (size_t j = 0; j < cnt; j++) tr->fini(kind ? (void *) &src.id[j] : (void *) &src.it[j]);
+			break; }
+		case 2: {
+			vf_at("mpt_array_set"); vf_count(kind ? "identifier:array_set_default" : "config_item:array_set_default", 1);
+			void *p = mpt_array_set(&a[h], tr, cnt * ES, 0, (long) pos);
+			VF_CHECK(p != 0, "builtin:array_set:refused", "%s: NULL", ctx);
+			for (size_t j = n; j < pos; j++) { shd[h][j].nlen = 0; shd[h][j].name[0] = 0; }
+			for (size_t j = 0; j < cnt; j++) { shd[h][pos + j].nlen = 0; shd[h][pos + j].name[0] = 0; }
+			if (pos + cnt > sn[h]) sn[h] = pos + cnt;
+			break; }
+		case 3: {
+			vf_at("mpt_array_clone"); vf_count("builtin:array_clone", 1);
+			int ret = mpt_array_clone(&a[h], &a[!h]);
+			VF_CHECK(ret >= 0, "builtin:array_clone:refused", "%s: %d", ctx, ret);
+			memcpy(shd[h], shd[!h], sizeof(shd[0])); sn[h] = sn[!h];
+			break; }
+		case 4: {
+			if (!a[h]._buf) break;
+			vf_at("mpt_array_slice");
+			if (!mpt_array_slice(&a[h], 0, 0)) vf_fail("builtin:array_slice:refused", "%s: detach failed", ctx);
+			if (!n) break;
+			if (pos >= n) pos = n - 1;
+			if (pos + cnt > n) cnt = n - pos;
+			vf_at("mpt_buffer_cut"); vf_count("builtin:buffer_cut", 1);
+			ssize_t ret = mpt_buffer_cut(a[h]._buf, pos * ES, cnt * ES);
+			VF_CHECK(ret >= 0, "builtin:buffer_cut:refused", "%s: %zd", ctx, ret);
+			memmove(shd[h] + pos, shd[h] + pos + cnt, (n - pos - cnt) * sizeof(shd[0][0])); sn[h] = n - cnt;
+			break; }
+		case 5:
+			vf_at("mpt_array_clone"); vf_count("builtin:drop", 1);
+			mpt_array_clone(&a[h], 0); sn[h] = 0;
+			break;
+		case 6: {
+			vf_at("mpt_array_reserve"); vf_count("builtin:array_reserve", 1);
+			MPT_STRUCT(buffer) *b = mpt_array_reserve(&a[h], (n + cnt) * ES, tr);
+			VF_CHECK(b != 0, "builtin:array_reserve:refused", "%s: NULL", ctx);
+			VF_CHECK(b->_used == n * ES, "builtin:array_reserve:content-lost", "%s: used %zu after reserve, had %zu elements", ctx, b->_used, n);
+			break; }
+		case 7: case 8: case 9: {
+			/* owner works on an element in place: needs exclusive buffer */
+			if (!n) break;
+			vf_at("mpt_array_slice");
+			if (!mpt_array_slice(&a[h], 0, 0)) vf_fail("builtin:array_slice:refused", "%s: detach failed", ctx);
+			if (pos >= n) pos = n - 1;
+			MPT_STRUCT(config_item) *it = ((MPT_STRUCT(config_item) *) (a[h]._buf + 1)) + pos;
+			if (op == 7) {   /* replace value, unique values included */
+				vf_count("config_item:value-replaced", 1);
+				if (it->value) { it->value->_vptr->unref(it->value); it->value = 0; }
+				it->value = take_value(r);
+			}
+			else if (op == 8) {   /* nested elements */
+				MPT_STRUCT(config_item) sub[2];
+				vf_count("config_item:nested-set", 1);
+				for (int j = 0; j < 2; j++) {
+					char nm[208];
+					tr->init(&sub[j], 0);
+					int l = pick_name(r, nm);
+					if (l) mpt_identifier_set(&sub[j].identifier, nm, l);
+					sub[j].value = take_value(r);
+				}
+				vf_at("mpt_array_set");
+				VF_CHECK(mpt_array_set((MPT_STRUCT(array) *) &it->elements, tr, 2 * ES, sub, (long) vf_below(r, 3)) != 0, "builtin:array_set:refused", "%s: nested set", ctx);
+				for (int j = 0; j < 2; j++) tr->fini(&sub[j]);
+			}
+			else {   /* rename */
+				vf_count("config_item:renamed", 1);
+				shd[h][pos].nlen = pick_name(r, shd[h][pos].name);
+				vf_at("mpt_identifier_set");
+				if (!mpt_identifier_set(&it->identifier, shd[h][pos].name, shd[h][pos].nlen) && shd[h][pos].nlen) vf_fail("builtin:rename-refused", "%s", ctx);
+			}
+			break; }
+		}
+		if (was_shared && a[h]._buf != before && a[h]._buf) { copies++; vf_count("builtin:shared-buffer-copied", 1); }
+		/* oracle: counts and names equal the shadow; every value reference is held by exactly one reachable element */
+		long expect[8] = { 0 };
+		const char *heap[2][24];
+		for (int k = 0; k < 2; k++) {
+			size_t c = a[k]._buf ? a[k]._buf->_used / ES : 0;
+			VF_CHECK(c == sn[k], "builtin:count", "%s: handle %d counts %zu elements, model %zu", ctx, k, c, sn[k]);
+			for (size_t j = 0; j < c; j++) {
+				const uint8_t *e = ((const uint8_t *) (a[k]._buf + 1)) + j * ES;
+				const MPT_STRUCT(identifier) *id = kind ? (const void *) e : &((const MPT_STRUCT(config_item) *) e)->identifier;
+				const char *nm = mpt_identifier_data(id);
+				int want = shd[k][j].nlen;
+				if (!want) VF_CHECK(id->_len <= 1, "builtin:name", "%s: handle %d element %zu has a name of %d bytes, model has none", ctx, k, j, (int) id->_len);
+				else VF_CHECK(id->_len == want + 1 && nm && !memcmp(nm, shd[k][j].name, want + 1), "builtin:name",
+				              "%s: handle %d element %zu name differs from the model '%s'", ctx, k, j, shd[k][j].name);
+				heap[k][j] = id->_len > id->_max ? id->_base : 0;
+				if (!kind && !(k == 1 && a[0]._buf == a[1]._buf)) walk_item((const MPT_STRUCT(config_item) *) e, expect, 0, ctx);
+			}
+		}
+		if (a[0]._buf && a[1]._buf && a[0]._buf != a[1]._buf)
+			for (size_t j = 0; j < sn[0]; j++) for (size_t q = 0; heap[0][j] && q < sn[1]; q++)
+				VF_CHECK(heap[0][j] != heap[1][q], "builtin:name-storage-aliased", "%s: elements of two buffers own the same name allocation", ctx);
+		for (int k = 0; k < 8; k++)
+			VF_CHECK(mt_refs[k] == expect[k], mt_refs[k] > expect[k] ? "builtin:reference-leaked" : "builtin:reference-lost",
+			         "%s: value %d%s has %ld references, %ld reachable elements hold it", ctx, k, k >= UNIQ0 ? " (unique)" : "", mt_refs[k], expect[k]);
+		vf_count("monitor:builtin-checks", 1);
+	}
+	mpt_array_clone(&a[0], 0);
+	mpt_array_clone(&a[1], 0);
+	for (int k = 0; k < 8; k++) VF_CHECK(mt_refs[k] == 0, "builtin:reference-leaked", "value %d keeps %ld references after all arrays are gone", k, mt_refs[k]);
+	if (copies) vf_nontrivial();
+	vf_sample("array of %s elements: %d operations on 2 handles, %d copies of a shared buffer", kn, nops, copies);
+}
+
 /* ---- entry ---------------------------------------------------------------- */
 static uint64_t n_hist(void) { return vf_thorough ? 3600000 : 120000; }
 static uint64_t n_meta(void) { return vf_thorough ? 200000 : 20000; }
 static uint64_t n_arr(void) { return vf_thorough ? 200000 : 20000; }
-uint64_t vf_cases(void) { return n_hist() + n_meta() + n_arr(); }
+static uint64_t n_blt(void) { return vf_thorough ? 300000 : 30000; }
+uint64_t vf_cases(void) { return n_hist() + n_meta() + n_arr() + n_blt(); }
 
 void vf_case(uint64_t idx, vf_rng *r)
 {
@@ -592,7 +793,10 @@ void vf_case(uint64_t idx, vf_rng *r)
 	if (next_serial > MAXSER - 100000) { memset(live, 0, MAXSER); next_serial = 0; }
 	n_live = 0; src_live = 0; fail_in = 0;
 	if (idx >= n_hist()) {
-		if (idx - n_hist() < n_meta()) case_metaref(r); else case_arrarr(r);
+		idx -= n_hist();
+		if (idx < n_meta()) case_metaref(r);
+		else if (idx < n_meta() + n_arr()) case_arrarr(r);
+		else case_builtin(r, idx % 3 == 0);
 		return;
 	}
 	char desc[1900];
